@@ -8,6 +8,9 @@ mpmath quadrature of the model's own density, in every admissible representation
 from `set_representation`, the integrals from the quadrature); cumulants 1, 2, 4 against derivatives of the exponent at 0
 (Cauchy integral on a circle); `log_characteristic_function(t, -i)` = log forward; direct-simulation drift + sigma^2/2 +
 integral (e^x - 1) nu(dx) = r - d; Markov-chain drift + sum x_k rate_k = drift() + mean of the truncated process; round trips.
+C + S through theorems (closed_form_probe): the coded exponents and cumulants of HEM / Merton / Black-Scholes against M's exact rational
+terms, which Proofs/C10.lean proves to be the Lévy–Khintchine integral of the density resp. the derivatives of the cumulant generating
+exponent.  Edge-of-constraint parameters of every family through every probe (edge_stream / edge_probe).
 """
 from __future__ import annotations
 
@@ -33,27 +36,46 @@ from rpylib.product.underlying import Spot
 
 RULE = ("models: defaults of HEM / Merton / VG / CGMY / Black-Scholes, every CGMY activity branch (y<0, y=0, 0<y<1, y=1, 1<y<2) and "
         "random draws from the boxes of harness/zoo.py, each both freshly constructed and rebuilt after a parameter history (one primary "
-        "parameter edited, initialisation(), edited back, initialisation(): the calibration idiom); exponent: complex u on a grid with |Im u| <= 1 (inside the strip of "
-        "analyticity), every representation admissible for the measure (ZERO only with finite variation); walks: 1..12 random "
+        "parameter edited, initialisation(), edited back, initialisation(): the calibration idiom); edge-of-constraint models through every "
+        "probe (HEM p = 1, intensity = 0, sigma = 0, eta1 in {1.0625, 1.25, 1.5}; Merton mu_j = 0, intensity = 0, sigma = 0, sigma_j = 2^-6; "
+        "VG theta = 0, nu in {2^-7, 4}; Black-Scholes sigma = 0; CGMY g = 0 / m = 0 with 1 < y < 2 on the half plane where the exponent "
+        "exists; see edge_stream for what is not generated and why); exponent: complex u on a grid with |Im u| <= 1 (inside the strip of "
+        "analyticity), every representation admissible for the measure (ZERO only with finite variation); closed forms of HEM / Merton / "
+        "Black-Scholes (incl. a pure diffusion with non-zero drift): dyadic real s in (-eta2, eta1) (HEM; two of them within 0.5 of a pole) "
+        "resp. (-12, 12), dyadic complex w = u + i v with |u| <= 10 and -v in the strip, cumulants 1, 2, 4, 6 (Black-Scholes 1..6) at "
+        "t in {1, 2.5}, all compared with M's exact rational terms; walks: 1..12 random "
         "representation changes on the model's measure and on its truncation to a grid box; exponential models: spot, r, d draws; "
         "chains: uniform / fixed-size grids with h in {0.1, 0.05, 0.02}. non-trivial = the quadrature converged (estimated error "
-        "<= 1e-12) / the walk changes representation at least once / the chain has >= 5 states; distinct = distinct "
-        "(family, parameters, u | walk | grid)")
+        "<= 1e-12) / the walk changes representation at least once / the chain has >= 5 states / the closed-form value is not "
+        "identically 0; distinct = distinct (family, parameters, u | s | w | walk | grid)")
 NOT_PROVED = [
-    "levy_exponent(u) = Lévy–Khintchine integral of the density: compared with mpmath quadrature (25 digits) of the model's own density, not proved",
-    "the stated cumulants are the derivatives of the exponent at 0: compared with Cauchy-integral derivatives (64 points on |s| = rho), not proved",
-    "kappa_X(1) = integral (e^x - 1) nu(dx) for the jump-diffusion families: quadrature; in M kappa is the coded rational function (HEM) / an abstract "
-    "number e = exp(mu_j + sigma_j^2/2) (Merton)",
+    "VG and CGMY: levy_exponent(u) = Lévy–Khintchine integral of the density is compared with mpmath quadrature (25 digits) of the model's own "
+    "density, not proved (HEM, Merton, Black-Scholes: proved, hem_levy_exponent_is_LK / merton_levy_exponent_is_LK, every complex argument "
+    "in the strip, declared ZERO representation; the quadrature comparison is kept for them as an independent oracle)",
+    "VG and CGMY: the stated cumulants are the derivatives of the exponent at 0: compared with Cauchy-integral derivatives (64 points on "
+    "|s| = rho), not proved (HEM, Merton, Black-Scholes: cumulants 1, 2, 4, 6 proved to be the iterated derivatives at 0 of "
+    "s -> a s + sigma^2 s^2/2 + integral (e^{s x} - 1) nu(dx); all orders in closed form)",
+    "for HEM / Merton the exponent in the NON-declared representations (CENTER, ONEONE, TILDE) as an integral with that cut-off is not proved: "
+    "only the drift book-keeping (exponent_rep_invariant / exponent_walk_invariant over abstract first-moment integrals) is; compared by quadrature",
+    "the float evaluation of the closed forms is compared with M's exact rational terms at 2^-40 relative to a cancellation-aware scale, "
+    "for the generated arguments only; exp / cos / sin of Merton's rational argument are evaluated by mpmath (40 digits)",
     "the measure's first-moment integrals m1(-1,1), m1(tails) are abstract numbers of M (C09's subject); float rounding of the conversions is compared at 2^-40",
     "the Markov-chain route is proved as algebra (ctmc_bookkeeping, ctmc_route_martingale over abstract integrals); that sum x_k rate_k is the chain's "
     "mean jump is C01 / C04's subject",
+    "Merton's first / second moment of the density = first / second derivative of the jump exponent (merton_moment_eq_deriv) is proved under C09's "
+    "hypotheses on erf (derivative 2/sqrt(pi) e^{-x^2}, limits +-1); HEM's (hem_moment_eq_deriv) unconditionally",
 ]
 ASSUMPTIONS = [
     "tolerances measured over seeds 0..5 with a 10x margin: exponent vs quadrature 2e-10*(1+|psi|+|u||drift terms|), cumulants 1e-9 relative to "
-    "the scale of the terms, forward 1e-11 relative, drifts 1e-10, chain mean 1e-8",
+    "the scale of the terms, forward 1e-11 relative, drifts 1e-10, chain mean 1e-8; closed forms vs M 2^-40 (observed <= 4e-4 of it)",
     "ZERO representation is only exercised for finite-variation measures (m1(-1,1) is infinite otherwise)",
+    "the theorems speak about hemDensity / mertonDensity of Lemmas/C09Hem.lean / C09Special.lean, the transcriptions of _HEMLevyMeasure.__call__ "
+    "(hem.py:55-62) and _MertonLevyMeasure.__call__ (merton.py:44-47) that C09 compares with the code; integrals are Bochner integrals over R "
+    "(the HEM density is 0 at 0, so R and R \\ {0} agree); hypotheses eta1, eta2 > 0, sigma_j > 0 are the constructors' constraints",
 ]
-TRUSTED = ["mpmath.quad (tanh-sinh) with its own error estimate", "the model's density __call__ as the definition of nu"]
+TRUSTED = ["mpmath.quad (tanh-sinh) with its own error estimate", "the model's density __call__ as the definition of nu",
+           "mpmath.expint (generalised exponential integral) for the analytic tail of an un-tempered CGMY side",
+           "mpmath exp / cos / sin at 40 digits on M's exact rational argument (Merton closed form)"]
 
 warnings.filterwarnings("ignore")
 mp.mp.dps = 25
@@ -112,6 +134,16 @@ def quad_against(nu, g, pts):
 PTS = [-mp.inf, -1, mp.mpf(-1) / 8, 0, mp.mpf(1) / 8, 1, mp.inf]
 
 
+def untempered(nu):
+    """(left, right, c, y): which sides of a CGMY measure are pure power laws c/|x|^(1+y) (g = 0 / m = 0, the edge of the declared
+    constraint `positive`).  Their tails beyond +-1 are integrated analytically (tanh-sinh does not converge on an oscillating
+    algebraic tail): int_1^inf e^{-z t} t^{-1-y} dt = E_{1+y}(z) (mpmath.expint), int_1^inf t^{-1-y} dt = 1/y, int_1^inf t^{-y} dt = 1/(y-1)"""
+    prm = getattr(nu, "parameters", None)
+    if prm is None or not all(hasattr(prm, k) for k in ("c", "g", "m", "y")):
+        return False, False, None, None
+    return float(prm.g) == 0.0, float(prm.m) == 0.0, mp.mpf(float(prm.c)), mp.mpf(float(prm.y))
+
+
 def first_moments(nu, fv, lo=None, hi=None):
     """(m1 over (-1,1) [None if infinite variation], m1 over the two tails, errors) by quadrature, optionally clipped to [lo, hi]"""
     def clip(pts):
@@ -127,6 +159,14 @@ def first_moments(nu, fv, lo=None, hi=None):
     left = clip([-mp.inf, -4, -1]) if lo is None or lo < -1 else None
     right = clip([1, 4, mp.inf]) if hi is None or hi > 1 else None
     tails, e2 = mp.mpc(0), 0.0
+    ul, ur, c_, y_ = untempered(nu)
+    if lo is None and (ul or ur):
+        if y_ <= 1:
+            return (None if mid is None else float(mid.real)), math.nan, math.inf      # infinite first moment: CENTER / ONEONE tails undefined
+        if ul:
+            left, tails = None, tails - c_ / (y_ - 1)
+        if ur:
+            right, tails = None, tails + c_ / (y_ - 1)
     for seg in (left, right):
         if seg and len(seg) >= 2:
             v, e = quad_against(nu, g, seg)
@@ -152,7 +192,19 @@ def lk_oneone(nu, u):
                 return s
             return mp.exp(z) - 1 - z
         return mp.exp(z) - 1
-    v, e = quad_against(nu, g, PTS)
+    ul, ur, c_, y_ = untempered(nu)
+    pts = PTS[(1 if ul else 0):(len(PTS) - 1 if ur else len(PTS))]
+    v, e = quad_against(nu, g, pts)
+    if (ul or ur) and y_ <= 0:
+        return complex(mp.nan), math.inf                  # infinite mass of big jumps: not a Lévy measure
+    if ul:
+        if u.imag > 0:
+            return complex(mp.nan), math.inf              # int_{x<-1} e^{iux} nu(dx) diverges
+        v += c_ * (mp.expint(1 + y_, 1j * u) - 1 / y_)
+    if ur:
+        if u.imag < 0:
+            return complex(mp.nan), math.inf
+        v += c_ * (mp.expint(1 + y_, -1j * u) - 1 / y_)
     return complex(v), e
 
 
@@ -341,6 +393,9 @@ def cumulant_probe(ctx, fam, params):
     m = make(fam, params)
     yb = ybranch(fam, params)
     rho = min(1.0, 0.4 * float(analytic_radius(fam, m)))
+    if not rho > 0:
+        ctx.branches["c10.cumulants:not_analytic_at_0(untempered side: infinite cumulants)"] += 1
+        return
     N = 64
     s = rho * np.exp(2j * np.pi * np.arange(N) / N)
     vals = np.array([complex(m.levy_exponent(-1j * sj)) for sj in s])
@@ -354,6 +409,11 @@ def cumulant_probe(ctx, fam, params):
             except NotImplementedError:
                 ctx.branches[f"c10.cumulants:not_implemented:{fam}:{k}"] += 1
                 continue
+            except Exception as e:
+                ctx.count("c10.cumulants", desc, nontrivial=False, branch=f"{fam}:{k}")
+                ctx.fail("oracle", "c10.cumulants.raises", desc, {"exception": repr(e)[:300], "what": "the cumulant generating exponent is "
+                         f"analytic on |s| < {float(analytic_radius(fam, m))} but cumulant{k}(t) raises"}, cls=dict(family=fam, ybranch=yb, k=k))
+                break
             ctx.count("c10.cumulants", desc, nontrivial=True, branch=f"{fam}:{k}")
             if not (fam == "cgmy" and k == 1 and yb in ("y=0", "y=1")):
                 track(ctx, "cumulants", abs(c - t * deriv.real), 1e-9 * t * max(scale, 1e-300))
@@ -596,6 +656,199 @@ def ctmc_probe(ctx, fam, params, spot, r, d, gd):
         ctx.fail("corr", "c10.ctmc.mu_h", desc, {"name": "compute_mu_h vs sum x_k * create_q_vector", "mu_h": mu_h, "sum_x_rate": sxq}, cls=cls)
 
 
+
+# ------------------------------------------------- C + S through theorems: closed forms as exact rational terms
+CF_THEOREMS = {
+    "hem": "hem_kappa_is_LK_integral / hem_levy_exponent_model_is_LK / hem_cgf_model_is_LK / hem_cumulant{1,2,4,6}_is_derivative",
+    "merton": "merton_kappa_is_LK_integral / merton_levy_exponent_model_is_LK / merton_cgf_model_is_LK / merton_cumulant{1,2,4,6}_is_derivative",
+    "bs": "bs_kappa_is_LK_integral / bs_cumulants_are_derivatives",
+}
+
+
+def _dy(rng, lo, hi, bits=4):
+    """random dyadic with `bits` fractional bits strictly inside (lo, hi); None if the interval holds none"""
+    a, b = math.floor(lo * 2 ** bits) + 1, math.ceil(hi * 2 ** bits) - 1
+    return None if a > b else rng.randint(a, b) / 2 ** bits
+
+
+def _mp_of(q):
+    return mp.mpf(q.numerator) / mp.mpf(q.denominator)
+
+
+def closed_form_inputs(rng, fam, m, n_s, n_w):
+    """real arguments s and complex arguments w = u + i v (dyadic) inside the domain of the theorems: HEM -eta2 < s < eta1,
+    -eta2 < -v < eta1 (two of them close to the poles); Merton / BS: anything moderate"""
+    if fam == "hem":
+        e1, e2 = float(m.parameters.eta1), float(m.parameters.eta2)
+        lo, hi = -e2, e1
+    else:
+        lo, hi = -12.0, 12.0
+    ss = [x for x in (1.0, 0.0, -1.0) if lo < x < hi]
+    for _ in range(n_s):
+        x = _dy(rng, lo, hi) if rng.random() < 0.7 else rng.choice([_dy(rng, hi - 0.5, hi), _dy(rng, lo, lo + 0.5)])
+        if x is not None:
+            ss.append(x)
+    ws = [(0.0, -1.0)] if lo < 1.0 < hi else []
+    for _ in range(n_w):
+        mv = _dy(rng, max(lo, -3.0), min(hi, 3.0))       # -v
+        if mv is not None:
+            ws.append((rng.randint(-160, 160) / 16, -mv))
+    ws.append((rng.randint(-160, 160) / 16, 0.0))
+    return ss, ws
+
+
+def closed_form_probe(ctx, fam, params, ss, ws, ts=(1.0, 2.5)):
+    """HEM / Merton / Black-Scholes: the coded pure-jump exponent at real s and complex z, `levy_exponent` at -i s and at
+    complex w, and cumulants 1, 2, 4, 6 against M's exact rational terms (Drivers/C10).  The theorems listed in CF_THEOREMS
+    prove that M's terms ARE the Lévy–Khintchine integral of the model's density / the derivatives of its cumulant generating
+    exponent, so inside the theorems' hypotheses a mismatch is a failure of the property itself (kind oracle)."""
+    if fam == "bsmu":
+        from rpylib.model.levymodel.mixed.blackscholes import PureDiffusiveModel
+        m = PureDiffusiveModel(mu=params["mu"], sigma=params["sigma"])
+        famk = "bs"
+    else:
+        m = make(fam, params)
+        famk = fam
+    pr = getattr(m, "parameters", None)
+    a0 = float(m._original_drift)
+    sigma = float(m.levy_triplet.sigma)
+    A, SG = fr(a0), fr(sigma)
+    cls = dict(family=famk, closed_form=True)
+    thm = CF_THEOREMS[famk]
+    if famk == "hem":
+        lam, pp, e1, e2 = (fr(float(getattr(pr, k))) for k in ("intensity", "p", "eta1", "eta2"))
+        hyp = e1 > 0 and e2 > 0
+        args = f"{w(lam)} {w(pp)} {w(e1)} {w(e2)}"
+    elif famk == "merton":
+        lam, mu, sj = (fr(float(getattr(pr, k))) for k in ("intensity", "mu_j", "sigma_j"))
+        hyp = sj > 0
+    else:
+        lam, hyp = Fraction(0), True
+
+    def kappa_model(x, y):
+        """(re, im, scale) of levy_exponent_pure_jump(x + i y) from M's rational terms; None outside M's domain"""
+        if famk == "hem":
+            out = ctx.lean(f"hemkappac {args} {w(x)} {w(y)}")
+            if out == "div0":
+                return None
+            re_, im_ = (rd(t) for t in out.split(" "))
+            d1 = math.hypot(float(e1 - x), float(y))
+            d2 = math.hypot(float(e2 + x), float(y))
+            sc = abs(lam) * (fr(abs(float(pp * e1)) / d1) + fr(abs(float((1 - pp) * e2)) / d2) + 1)
+            return re_, im_, sc
+        if famk == "merton":
+            are, aim = (rd(t) for t in ctx.lean(f"mertonargc {w(mu)} {w(sj)} {w(x)} {w(y)}").split(" "))
+            with mp.workdps(40):
+                ez = mp.exp(_mp_of(are))
+                kre = _mp_of(lam) * (ez * mp.cos(_mp_of(aim)) - 1)
+                kim = _mp_of(lam) * (ez * mp.sin(_mp_of(aim)))
+                sc = abs(lam) * (fr(float(ez)) * (1 + abs(are) + abs(aim)) + 1)
+                return Fraction(str(mp.nstr(kre, 38))), Fraction(str(mp.nstr(kim, 38))), sc
+        return Fraction(0), Fraction(0), Fraction(1, 2 ** 60)
+
+    def bad(probe, desc, what, impl, model, scale, in_hyp):
+        kind = "oracle" if in_hyp else "corr"
+        ctx.fail(kind, probe, desc, {"what": what, "theorems": thm if in_hyp else "outside the theorems' hypotheses: correspondence only",
+                                     "implementation": impl, "model": model, "scale": float(scale), "name": "Drivers/C10 closed forms"}, cls=cls)
+
+    tiny = Fraction(1, 2 ** 60)
+
+    def close(py, lean, scale):          # shadows common.close: same rule, plus the margin book-keeping
+        try:
+            track(ctx, "closed_form", float(abs(fr(py) - lean)), float(TOLF * scale))
+        except ValueError:
+            return False
+        return abs(fr(py) - lean) <= TOLF * scale
+    # ---- pure-jump exponent and cumulant generating exponent at real s
+    for sv in ss:
+        S = fr(sv)
+        desc = dict(family=fam, params=params, s=sv, closed_form="real")
+        in_strip = famk != "hem" or (-e2 < S < e1)
+        km = kappa_model(S, Fraction(0))
+        if km is None:
+            continue
+        ctx.count("c10.closed_form", desc, nontrivial=bool(lam != 0 or SG != 0 or A != 0), branch=f"{famk}:real")
+        try:
+            k_impl = complex(m.levy_exponent_pure_jump(sv))
+            psi_impl = complex(m.levy_exponent(-1j * sv))
+        except Exception as e:
+            ctx.fail("oracle", "c10.exponent.raises", desc, {"exception": repr(e)[:300]}, cls=cls)
+            continue
+        kre, _, ksc = km
+        if famk == "hem":                      # the real-argument definition of M as well (hemKappa, the theorem's own term)
+            kre2 = rd(ctx.lean(f"hemkappa {args} {w(S)}"))
+            if kre2 != kre:
+                raise Infra(f"Drivers/C10 hemkappa and hemkappac disagree at {desc}")
+        if not (close(k_impl.real, kre, ksc + tiny) and abs(k_impl.imag) <= 1e-300):
+            bad("c10.closed_form.exponent", desc, "levy_exponent_pure_jump(s) != integral (e^{s x} - 1) nu(dx) (M's exact term)",
+                [k_impl.real, k_impl.imag], float(kre), ksc, hyp and in_strip)
+            continue
+        cg = rd(ctx.lean(f"cgf {w(A)} {w(SG)} {w(S)} {w(kre)}"))
+        csc = abs(S * A) + (S * SG) ** 2 / 2 + ksc + tiny
+        if famk == "hem" and rd(ctx.lean(f"hemcgf {w(A)} {w(SG)} {args} {w(S)}")) != cg:
+            raise Infra(f"Drivers/C10 hemcgf and cgf disagree at {desc}")
+        if not (close(psi_impl.real, cg, csc) and abs(psi_impl.imag) <= float(TOLF * csc)):
+            bad("c10.closed_form.exponent", desc, "levy_exponent(-i s) != a s + sigma^2 s^2/2 + integral (e^{s x} - 1) nu(dx) (M's exact term)",
+                [psi_impl.real, psi_impl.imag], float(cg), csc, hyp and in_strip)
+    # ---- characteristic exponent at complex w = u + i v
+    for u, v in ws:
+        U, V = fr(u), fr(v)
+        desc = dict(family=fam, params=params, w=[u, v], closed_form="complex")
+        in_strip = famk != "hem" or (-e2 < -V < e1)
+        km = kappa_model(-V, U)
+        if km is None:
+            continue
+        ctx.count("c10.closed_form", desc, nontrivial=bool(lam != 0 or SG != 0 or A != 0), branch=f"{famk}:complex")
+        kre, kim, ksc = km
+        try:
+            k_impl = complex(m.levy_exponent_pure_jump(1j * complex(u, v)))
+            psi_impl = complex(m.levy_exponent(complex(u, v)))
+        except Exception as e:
+            ctx.fail("oracle", "c10.exponent.raises", desc, {"exception": repr(e)[:300]}, cls=cls)
+            continue
+        if not (close(k_impl.real, kre, ksc + tiny) and close(k_impl.imag, kim, ksc + tiny)):
+            bad("c10.closed_form.exponent", desc, "levy_exponent_pure_jump(i w) != integral (e^{i w x} - 1) nu(dx) (M's exact terms)",
+                [k_impl.real, k_impl.imag], [float(kre), float(kim)], ksc, hyp and in_strip)
+            continue
+        if famk == "hem":
+            mre, mim = (rd(t) for t in ctx.lean(f"levyexp hem {w(A)} {w(SG)} {args} {w(U)} {w(V)}").split(" "))
+        else:
+            mre, mim = (rd(t) for t in ctx.lean(f"levyexpof {w(A)} {w(SG)} {w(U)} {w(V)} {w(kre)} {w(kim)}").split(" "))
+        aw = fr(math.hypot(u, v))
+        psc = aw * abs(A) + (aw * SG) ** 2 / 2 + ksc + tiny
+        if not (close(psi_impl.real, mre, psc) and close(psi_impl.imag, mim, psc)):
+            bad("c10.closed_form.exponent", desc, "levy_exponent(w) != i w a - sigma^2 w^2/2 + integral (e^{i w x} - 1) nu(dx) in the declared "
+                "(ZERO) representation (M's exact terms)", [psi_impl.real, psi_impl.imag], [float(mre), float(mim)], psc, hyp and in_strip)
+    # ---- cumulants
+    dr = fr(float(m.cumulant.drift))
+    for k in ((1, 2, 4, 6) if famk != "bs" else (1, 2, 3, 4, 5, 6)):
+        for t in ts:
+            T = fr(t)
+            desc = dict(family=fam, params=params, cumulant=k, t=t, closed_form="cumulant")
+            if famk == "hem":
+                line = f"cum hem {k} {w(dr)} {w(SG)} {args} {w(T)}"
+                jm = abs(lam) * math.factorial(k) * (abs(pp) / e1 ** k + abs(1 - pp) / e2 ** k)
+            elif famk == "merton":
+                line = f"cum merton {k} {w(dr)} {w(SG)} {w(lam)} {w(mu)} {w(sj)} {w(T)}"
+                jm = abs(lam) * 64 * (abs(mu) + sj) ** k
+            else:
+                line = f"cum bs {k} {w(dr)} {w(SG)} {w(T)}"
+                jm = Fraction(0)
+            mv = rd(ctx.lean(line))
+            sc = T * ((abs(dr) if k == 1 else 0) + (SG ** 2 if k == 2 else 0) + jm) + tiny
+            ctx.count("c10.closed_form", desc, nontrivial=bool(mv != 0), branch=f"{famk}:cumulant{k}")
+            try:
+                cv = float(getattr(m.cumulant, f"cumulant{k}")(t))
+            except Exception as e:
+                ctx.fail("oracle", "c10.cumulants.raises", desc, {"exception": repr(e)[:300]}, cls=dict(cls, k=k))
+                continue
+            if not close(cv, mv, sc):
+                bad("c10.closed_form.cumulant", desc, f"cumulant{k}(t) != t * d^{k}/ds^{k} [a s + sigma^2 s^2/2 + integral (e^{{s x}} - 1) nu(dx)] at 0 "
+                    "(M's exact term)", cv, float(mv), sc, hyp and dr == A)
+
+
+TOLF = Fraction(1, 2 ** 40)
+
 # -------------------------------------------------------------------------------------------------------------- run
 def draw_walk(rng, fv):
     allowed = [1, 2, 3, 4] if fv else [2, 3, 4]
@@ -605,6 +858,55 @@ def draw_walk(rng, fv):
 def stream(rng, n):
     out = [("bs", {"sigma": 0.2})] + zoo.model_stream(rng, n)
     return out
+
+
+def edge_stream(rng, thorough):
+    """(family, params, restriction) on the boundary of the declared parameter constraints (tools/parameter.py: `positive` is >= 0,
+    `strictly_positive` > 0): HEM p = 1 (one-sided jumps; the edge of the meaningful range of p), intensity = 0, sigma = 0, eta1 close
+    to 1 (kappa(1) close to its pole); Merton mu_j = 0, intensity = 0, sigma = 0, narrow jumps; VG theta = 0, small / large nu;
+    Black-Scholes sigma = 0; CGMY g = 0 / m = 0 with 1 < y < 2 (one side a pure power law: the CENTER triplet and the exponent on
+    the closed half plane Im u <= 0 resp. >= 0 are still defined; the cumulants are infinite; with m = 0 there is no exponential
+    model).  Not generated, because the declared triplet itself is undefined there: CGMY g = 0 / m = 0 with y <= 1 (infinite first
+    moment in the CENTER representation / infinite mass of big jumps); rejected by the constructors: VG sigma = 0, CGMY c = 0,
+    HEM eta1 = 1 (ZeroDivisionError in HEMParameters).  restriction: None | "im<=0" | "im>=0" on the arguments of the exponent."""
+    d = zoo.draw_params
+    out = [("hem", dict(d(rng, "hem"), p=1.0), None), ("hem", dict(d(rng, "hem"), intensity=0.0), None),
+           ("hem", dict(d(rng, "hem"), sigma=0.0), None), ("hem", dict(d(rng, "hem"), eta1=rng.choice([1.0625, 1.25, 1.5])), None),
+           ("merton", dict(d(rng, "merton"), mu_j=0.0), None), ("merton", dict(d(rng, "merton"), intensity=0.0), None),
+           ("merton", dict(d(rng, "merton"), sigma=0.0), None), ("merton", dict(d(rng, "merton"), sigma_j=2.0 ** -6), None),
+           ("vg", dict(d(rng, "vg"), theta=0.0), None), ("vg", dict(d(rng, "vg"), nu=rng.choice([2.0 ** -7, 4.0])), None),
+           ("bs", {"sigma": 0.0}, None)]
+    y = lambda: round(1.5 + rng.uniform(-0.3, 0.3), 2)
+    out += [("cgmy", dict(d(rng, "cgmy", 1.5), g=0.0, y=y()), "im<=0"), ("cgmy", dict(d(rng, "cgmy", 1.5), m=0.0, y=y()), "im>=0")]
+    if thorough:
+        out += [("hem", dict(d(rng, "hem"), p=1.0, sigma=0.0, intensity=0.0), None),
+                ("hem", dict(d(rng, "hem"), p=1.0, eta1=1.0625), None),
+                ("merton", dict(d(rng, "merton"), mu_j=0.0, sigma=0.0), None),
+                ("vg", dict(d(rng, "vg"), theta=0.0, nu=4.0), None),
+                ("cgmy", dict(d(rng, "cgmy", 1.5), g=0.0, y=y()), "im<=0"), ("cgmy", dict(d(rng, "cgmy", 1.5), m=0.0, y=y()), "im>=0")]
+    return out
+
+
+def edge_probe(ctx, fam, params, restr, rng):
+    """every probe of the check on one edge-of-constraint model"""
+    us = [u for u in U_GRID if restr is None or (restr == "im<=0" and u.imag <= 0) or (restr == "im>=0" and u.imag >= 0)]
+    ctx.branches[f"c10.edge:{fam}:{'+'.join(sorted(k for k in params if params[k] in (0.0, 1.0)) or ['near'])}"] += 1
+    q = exponent_probe(ctx, fam, params, us[:4])
+    cumulant_probe(ctx, fam, params)
+    spot, r, d = 100.0, rng.choice([0.0, 0.02]), rng.choice([0.0, 0.01])
+    if restr != "im>=0":                       # m = 0: E[e^X] is infinite, no exponential model
+        routes_probe(ctx, fam, params, spot, r, d)
+        if q is not None and q["i0"]:
+            native = make(fam, params).levy_triplet.representation.value
+            exponent_after_walk_probe(ctx, fam, params, [2 if native != 2 else 3, 4, native], q, spot, r, d)
+    if fam in ("hem", "merton", "bs"):
+        ss, ws = closed_form_inputs(rng, fam, make(fam, params), 3, 3)
+        closed_form_probe(ctx, fam, params, ss, ws)
+    if fam != "bs":
+        fv = bool(make(fam, params).levy_triplet.nu.jump_of_finite_variation())
+        walk_probe(ctx, fam, params, draw_walk(rng, fv))
+        if restr is None:
+            ctmc_probe(ctx, fam, params, spot, r, d, dict(kind="uniform", h=rng.choice([0.1, 0.05]), tp=0.99))
 
 
 def run(ctx):
@@ -642,6 +944,16 @@ def run(ctx):
         gd = (dict(kind="uniform", h=rng.choice([0.1, 0.05, 0.02]), tp=rng.choice([0.99, 0.999]))
               if rng.random() < 0.6 else dict(kind="fixed", h=rng.choice([0.1, 0.05]), nb=rng.choice([5, 9, 21])))
         ctmc_probe(ctx, fam, params, spot, r, d, gd)
+    # ---- closed forms of the jump-diffusion families as exact rational terms (tie to the Lean theorems)
+    cf = [("hem", {}), ("merton", {}), ("bs", {"sigma": 0.2}), ("bsmu", {"mu": rng.randint(-16, 16) / 16, "sigma": rng.randint(0, 8) / 16})]
+    cf += [(f, prm) for f, prm in models if f in ("hem", "merton") and prm][:ctx.n(6, 40)]
+    cf += [(f, dict(zoo.draw_params(rng, f), __reinit__=True)) for f in ("hem", "merton")]
+    for fam, params in cf:
+        ss, ws = closed_form_inputs(rng, "bs" if fam == "bsmu" else fam, None if fam == "bsmu" else make(fam, params), ctx.n(3, 8), ctx.n(3, 8))
+        closed_form_probe(ctx, fam, params, ss, ws)
+    # ---- edge-of-constraint parameters through every probe
+    for fam, params, restr in edge_stream(rng, ctx.thorough):
+        edge_probe(ctx, fam, params, restr, rng)
     ctx.notes.append("largest observed discrepancy / tolerance per oracle: " +
                      ", ".join(f"{k} {v:.2e}" for k, v in sorted(getattr(ctx, "margins", {}).items())))
 
@@ -650,7 +962,11 @@ def replay(ctx, rec):
     d = rec["input"]
     p = rec.get("probe", "")
     fam, params = d["family"], d["params"]
-    if d.get("history"):
+    if d.get("closed_form"):
+        ss = [d["s"]] if "s" in d else []
+        ws = [tuple(d["w"])] if "w" in d else []
+        closed_form_probe(ctx, fam, params, ss, ws, ts=(d["t"],) if "t" in d else ())
+    elif d.get("history"):
         q = exponent_probe(ctx, fam, params, [-1j, 0.7] + ([complex(*d["u"])] if "u" in d else []))
         if q is not None:
             exponent_after_walk_probe(ctx, fam, params, d["walk"], q, d["spot"], d["r"], d["d"])
